@@ -126,17 +126,29 @@ Fixpoint c04_trace_ok (init_h : N) (prev : option tr) (l : list tr) : bool :=
   end.
 
 (** * C07: the voting validator set is genesis or the committed header's next set *)
-Definition c07_obs_ok (genesis : tr) (o : tr) : bool :=
+Definition c07_obs_ok (init_h : N) (genesis : tr) (o : tr) : bool :=
   let vot := nth_tr o 0 in
   (* the set in use and every committed next set have lists matching their hashes (flag computed
      by the harness with the real hash scheme) *)
   (tn (nth_tr vot 11) =? 1) &&
   forallb (fun e => tn (nth_tr e 8) =? 1) (tls (nth_tr o 3)) &&
   let cur := TL [nth_tr vot 2; nth_tr vot 3; nth_tr vot 4; nth_tr vot 5] in
-  match rev (tls (nth_tr o 3)) with
-  | [] => tr_eqb cur genesis
-  | top :: _ => tr_eqb cur (TL [nth_tr top 3; nth_tr top 4; nth_tr top 5; nth_tr top 6])
-  end.
+  let next_of e := TL [nth_tr e 3; nth_tr e 4; nth_tr e 5; nth_tr e 6] in
+  (match rev (tls (nth_tr o 3)) with
+   | [] => tr_eqb cur genesis
+   | top :: _ => tr_eqb cur (next_of top)
+   end) &&
+  (* the set every committed header names as its own is the one the chain prescribes for its height: the
+     next set of the header below it (the genesis set for the first header, when that is the initial one) *)
+  (fix own (prev : option tr) (l : list tr) : bool :=
+     match l with
+     | [] => true
+     | e :: rest =>
+         (match prev with
+          | Some p => if tn (nth_tr p 0) + 1 =? tn (nth_tr e 0) then tr_eqb (nth_tr e 9) (next_of p) else true
+          | None => if tn (nth_tr e 0) =? init_h then tr_eqb (nth_tr e 9) genesis else true
+          end) && own (Some e) rest
+     end) None (tls (nth_tr o 3)).
 
 (** * C01: every stored committed header carries a certificate: genuine precommits for exactly
     its height / proof round / hash by distinct members of that height's validator set, with
